@@ -587,7 +587,7 @@ Lemma write_wss_runM w ps : flows ps -> run_M (write_wss w ++ ps).
 Proof. intro H. destruct w; cbn [write_wss app]; [apply flows_runM, H | apply runM_Sp, H]. Qed.
 
 Section Exprs.
-  Variable fx : bool.
+  Variable fx : fixes.
 
   Lemma flows_expr e : forall lvl, wf_expr e = true -> flows (fmt_expr fx lvl e).
   Proof.
@@ -674,7 +674,7 @@ Proof.
 Qed.
 
 Section Stmts.
-  Variable fx : bool.
+  Variable fx : fixes.
 
   Lemma args_runM lvl args ps : forallb wf_expr args = true -> run_M ps ->
     run_M (flat_map (fun a => Sp :: fmt_expr fx lvl a) args ++ ps).
@@ -788,7 +788,7 @@ Proof.
 Qed.
 
 Section Prog.
-  Variable fx : bool.
+  Variable fx : fixes.
 
   Lemma prog_loop_run nl l : forall i e b,
     forallb wf_stmt l = true ->
@@ -818,9 +818,9 @@ Section Prog.
   Lemma fmt_prog_run p : wf_prog p = true -> exists a', prun (PB 0) (fmt_prog fx p) = Some a'.
   Proof.
     intro Hwf. unfold fmt_prog. destruct p as [|s p]; [exists (PB 1); reflexivity|].
-    destruct (prog_loop_run (nl_after fx (map stmt_kind (s :: p))) (s :: p) 0%nat false 0%nat Hwf) as (b' & Hb'); try lia.
+    destruct (prog_loop_run (nl_after (fix_nl fx) (map stmt_kind (s :: p))) (s :: p) 0%nat false 0%nat Hwf) as (b' & Hb'); try lia.
     - intros j s' Hm Hn. cbn [Nat.add] in Hm.
-      destruct (nl_after_next_nonblank fx (map stmt_kind (s :: p)) j Hm) as (k & Hk & Hne).
+      destruct (nl_after_next_nonblank (fix_nl fx) (map stmt_kind (s :: p)) j Hm) as (k & Hk & Hne).
       rewrite nth_error_map, Hn in Hk. simpl in Hk. injection Hk as <-.
       destruct (is_blank s') eqn:E; [|reflexivity]. apply is_blank_kind in E. congruence.
     - exists (PB b'). exact Hb'.
@@ -875,7 +875,7 @@ Lemma ends_one_nl_snoc s c : (c =? 10) = false -> ends_one_nl (s ++ [c; 10]) = t
 Proof. intro H. unfold ends_one_nl. rewrite rev_app_distr. simpl. rewrite H. reflexivity. Qed.
 
 Section Final.
-  Variable fx : bool.
+  Variable fx : fixes.
 
   Lemma prog_loop_final nl l : forall i e b,
     forallb wf_stmt l = true ->
@@ -920,15 +920,15 @@ Section Final.
     is_blank (last p (SEmpty [])) = false -> ends_one_nl (format fx p) = true.
   Proof.
     intros Hwf Hne Hlast. unfold format, fmt_prog. destruct p as [|s p]; [contradiction|].
-    set (nl := nl_after fx (map stmt_kind (s :: p))).
+    set (nl := nl_after (fix_nl fx) (map stmt_kind (s :: p))).
     assert (Hrun : prun (PB 0) (prog_loop fx nl 0 false (s :: p)) = Some (PB 0)).
     { apply prog_loop_final; auto; try lia.
       - intros j s' Hm Hn. cbn [Nat.add] in Hm.
-        destruct (nl_after_next_nonblank fx (map stmt_kind (s :: p)) j Hm) as (k & Hk & Hne').
+        destruct (nl_after_next_nonblank (fix_nl fx) (map stmt_kind (s :: p)) j Hm) as (k & Hk & Hne').
         rewrite nth_error_map, Hn in Hk. simpl in Hk. injection Hk as <-.
         destruct (is_blank s') eqn:E; [|reflexivity]. apply is_blank_kind in E. congruence.
       - intros j Hm. cbn [Nat.add] in Hm.
-        destruct (nl_after_next_nonblank fx (map stmt_kind (s :: p)) j Hm) as (k & Hk & _).
+        destruct (nl_after_next_nonblank (fix_nl fx) (map stmt_kind (s :: p)) j Hm) as (k & Hk & _).
         assert (Hx : nth_error (map stmt_kind (s :: p)) (S j) <> None) by congruence.
         apply nth_error_Some in Hx. rewrite map_length in Hx. exact Hx. }
     pose proof (prun_inv_txt _ (PB 0) (PB 0) [] (or_introl eq_refl) Hrun) as Hi.
